@@ -46,6 +46,8 @@ def ref_notes(db, cat, name):
 def got_notes(findings, cat, name):
     res = {'fail': collections.Counter(), 'warn': collections.Counter(), 'info': collections.Counter()}
     for c, n, sev, text in findings:
+        if 'Terrapin' in text and 'pseudo-algorithm' not in text:
+            text = TWTEXT          # the wording of the Terrapin note is presentation, its presence and severity are not
         if c == cat and n == name and text != '':
             res[sev][text] += 1
     return res
